@@ -150,7 +150,7 @@ class Live:
     """one long-lived enforcer with its own files, driven along a history"""
 
     def __init__(self, rng, variant, enforce_new, defaults=None, via='enforce', overwrite=True, warn=None, box=None, late=False, dup_dirs=False,
-                 make_dirs=None):
+                 make_dirs=None, absent_first=False):
         self.box = box if box is not None else fsbox.Box(rng, make_dirs=(rng.random() < 0.7) if make_dirs is None else make_dirs)
         self.rng = rng
         self.own_box = box is None
@@ -160,7 +160,8 @@ class Live:
         self.snap = snapshot_defaults(self.defaults)
         self.warn = (rng.random() < 0.5) if warn is None else warn
         self.dup_dirs = dup_dirs
-        self.e = new_enforcer(self.box, variant, enforce_new, self.defaults, overwrite, warn=self.warn, nreg=0, dup_dirs=dup_dirs)
+        self.absent_first = absent_first
+        self.e = new_enforcer(self.box, variant, enforce_new, self.defaults, overwrite, warn=self.warn, nreg=0, dup_dirs=dup_dirs, absent_first=absent_first)
         self.roles = ['dflt', 'old', 'nobody', 'n'] + [f + '@fixed' for f in MUTABLE]
         self.trace = [{'op': 'boot', 'de': 1 if self.box.make_dirs else 0}]
         self.last_print = None
@@ -197,7 +198,7 @@ class Live:
                 fresh_dec = None
                 if self.rng.random() < 0.4:
                     # the newly constructed enforcer may just as well read the files BEFORE the long-lived one
-                    fresh0 = new_enforcer(self.box, self.variant, getattr(self, 'enforce_new_now', self.enforce_new), self.defaults, self.overwrite, nreg=self.nreg, dup_dirs=self.dup_dirs)
+                    fresh0 = new_enforcer(self.box, self.variant, getattr(self, 'enforce_new_now', self.enforce_new), self.defaults, self.overwrite, nreg=self.nreg, dup_dirs=self.dup_dirs, absent_first=self.absent_first)
                     fresh_dec = decisions(fresh0, self.roles, 'enforce')
                     rec['_fresh_first'] = True
                 with _w.catch_warnings(record=True) as caught:
@@ -229,7 +230,7 @@ class Live:
                         if self.e.enforce(d.name, {}, {'roles': [r], 'system_scope': 'all'}):
                             rec['scopeblk'] = 0
                 if fresh_dec is None:
-                    fresh = new_enforcer(self.box, self.variant, getattr(self, 'enforce_new_now', self.enforce_new), self.defaults, self.overwrite, nreg=self.nreg, dup_dirs=self.dup_dirs)
+                    fresh = new_enforcer(self.box, self.variant, getattr(self, 'enforce_new_now', self.enforce_new), self.defaults, self.overwrite, nreg=self.nreg, dup_dirs=self.dup_dirs, absent_first=self.absent_first)
                     fresh_dec = decisions(fresh, self.roles, 'enforce')
                 rec['fresh'] = fresh_dec
                 if snapshot_defaults(self.defaults) != self.snap:
@@ -256,13 +257,13 @@ class Live:
             self.box.close()
 
 
-def run_history(rng, variant, enforce_new, history, via='enforce', defaults=None, overwrite=True, late=False, dup_dirs=False):
+def run_history(rng, variant, enforce_new, history, via='enforce', defaults=None, overwrite=True, late=False, dup_dirs=False, absent_first=False):
     """history: list of ('write', f, kind) / ('empty'|'touch'|'delete', f) /
     ('ignored', f) / ('load', force).  Returns the recorded trace."""
     # (a changed enforce_new_defaults option takes effect at the next rebuild of the rule store; without a main
     #  file and without any existing directory there is nothing to rebuild from - histories that change the
     #  option run with the directories in place)
-    lv = Live(rng, variant, enforce_new, via=via, defaults=defaults, overwrite=overwrite, late=late, dup_dirs=dup_dirs,
+    lv = Live(rng, variant, enforce_new, via=via, defaults=defaults, overwrite=overwrite, late=late, dup_dirs=dup_dirs, absent_first=absent_first,
               make_dirs=True if any(op[0] == 'setopt' for op in history) else None)
     try:
         for ev in history:
@@ -296,7 +297,7 @@ def strip_trace(tr):
     return [{k: v for k, v in ev.items() if not k.startswith('_')} for ev in tr]
 
 
-def judge_traces(ctx, variant, enforce_new, traces, timeout=3000, overwrite=True, _canary=True, dup_dirs=False):
+def judge_traces(ctx, variant, enforce_new, traces, timeout=3000, overwrite=True, _canary=True, dup_dirs=False, absent_first=False):
     """returns list of (trace index, why, step) for rejected traces"""
     import json
     import os
@@ -308,7 +309,7 @@ def judge_traces(ctx, variant, enforce_new, traces, timeout=3000, overwrite=True
     try:
         with os.fdopen(fd, 'w') as f:
             json.dump([strip_trace(t) for t in traces], f, separators=(',', ':'))
-        res = tlc.run('Trace_Loader', CFG % ('TRUE' if enforce_new else 'FALSE', variant, 'TRUE' if overwrite else 'FALSE', 'MCDirsDup' if dup_dirs else 'MCDirs'), env={'VERIF_CASES': path},
+        res = tlc.run('Trace_Loader', CFG % ('TRUE' if enforce_new else 'FALSE', variant, 'TRUE' if overwrite else 'FALSE', 'MCDirsDup' if dup_dirs else ('MCDirsAbsentFirst' if absent_first else 'MCDirs')), env={'VERIF_CASES': path},
                       cont=True, timeout=timeout)
     finally:
         os.unlink(path)
@@ -339,7 +340,7 @@ def judge_traces(ctx, variant, enforce_new, traces, timeout=3000, overwrite=True
         from harness import canary
         from checks import canaries
         canary.probe(ctx, 'Trace_Loader', [t for i, t in enumerate(traces, 1) if i not in bad], canaries.loader_trace,
-                     lambda trs: {i for i, _, _ in judge_traces(canary.NullCtx(), variant, enforce_new, trs, timeout, overwrite, _canary=False, dup_dirs=dup_dirs)}, k=8)
+                     lambda trs: {i for i, _, _ in judge_traces(canary.NullCtx(), variant, enforce_new, trs, timeout, overwrite, _canary=False, dup_dirs=dup_dirs, absent_first=absent_first)}, k=8)
     return [(cid - 1, w, l) for cid, (w, l) in sorted(bad.items())]
 
 
